@@ -1,6 +1,7 @@
 """C13 -- constructed isometries, tangent vectors, regular polygons
 (T1, U1, RC). Narrow: can execute + row convention."""
 from ..rules import numpy_rules as NP
+from ..rules import misc_rules as MI
 from ..rules import dtype_rules as D
 from ..rules import cache_rules as CA
 from ..rules import hyp_rules as H
@@ -31,6 +32,8 @@ def run(ctx):
     ctx.do(DG.rule_hd1)
     ctx.do(DG.rule_hd1_attr)
     ctx.do(NP.rule_ar1, [HYP])
+    ctx.do(MI.rule_rng1, only={"polygon_interior_angle", "TangentVector.angle",
+                               "regular_polygon_radius"})
     ctx.do(D.rule_lk1, [HYP], scope=ctx.scope(ENTRIES))
     ctx.do(CA.rule_c2, "ProjectiveObject", scope=ctx.scope(ENTRIES))
     ctx.do(SH.rule_sh5, only={"TangentVector.normalized", "TangentVector.angle", "TangentVector.point_along", "TangentVector.origin_to", "TangentVector.isometry_to", "Point.origin_to", "Point.unit_tangent_towards"})
